@@ -43,6 +43,17 @@ class BareLeaf(torch.nn.Module):
         return x
 
 
+class NPScale(torch.nn.Module):
+    """user module holding a NON-persistent buffer (a rotary table, a mask): part of the model, absent from its state_dict"""
+
+    def __init__(self, n):
+        super().__init__()
+        self.register_buffer("k", 0.5 + torch.arange(n, dtype=torch.float32) / max(n, 1), persistent=False)
+
+    def forward(self, x):
+        return x * self.k.to(x.dtype)
+
+
 class MyLinear(torch.nn.Linear):
     """a user subclass of Linear: still eligible (isinstance)"""
 
@@ -171,7 +182,7 @@ def runnable(draw, families=("mlp", "mlp-ln", "conv", "lin"), feats=None):
     if fam in ("mlp", "mlp-ln", "lin"):
         feats = feats or [3, 8, 16, 33, 64, 96, 128, 160]
         r = {"fam": fam, "i": draw(st.sampled_from(feats)), "h": draw(st.sampled_from([4, 8, 17, 32])), "o": draw(st.integers(1, 9)), "bias": draw(st.booleans()),
-             "act": draw(st.sampled_from(["relu", "gelu", "none"])), "depth": draw(st.integers(1, 3))}
+             "act": draw(st.sampled_from(["relu", "gelu", "none"])), "depth": draw(st.integers(1, 3)), "npbuf": draw(st.sampled_from([False, False, True]))}
         if fam == "mlp-ln":
             # LayerNorm hyper-parameters: without affine parameters the quantized module has no weight at all (only scale buffers)
             r["ln_affine"] = draw(st.sampled_from([True, True, False]))
@@ -199,6 +210,8 @@ def build_runnable(r, g):
         if fam == "mlp-ln":
             mods.append(build_tree({"t": "ln", "shape": [d], "affine": r.get("ln_affine", True), "bias": r.get("ln_bias", True) if r.get("ln_affine", True) else True, "eps": 1e-5}, g))
         mods.append(build_tree({"t": "linear", "i": d, "o": r["h"], "bias": r["bias"]}, g))
+        if r.get("npbuf") and k == 0:
+            mods.append(NPScale(r["h"]))
         mods.append(acts[r["act"]]())
         d = r["h"]
     mods.append(build_tree({"t": "linear", "i": d, "o": r["o"], "bias": r["bias"]}, g))
